@@ -31,7 +31,8 @@ claimed = {
         "extended by all reduce fields whenever there is at least one (also in the accepting state). AddEdge / GenDotGraph are proved to pass exactly these "
         "names and labels to gographviz. ShowCloure (debug listing) prints state number, left-hand side, the symbols before/after the dot and `at X goto n` "
         "from the same structures; ShowLookAheadSet / ShowDrSet / ShowReadSet print ONE line per entry of the set map, with the transition and the names of ALL its symbols in order "
-        "(ghost print log), so no reduction or lookahead of the tables is missing from the listing.",
+        "(ghost print log), so no reduction or lookahead of the tables is missing from the listing. The contracts of the stages that produce what is drawn and listed - LR(0) "
+        "construction (C09), relation builders (C03), table splitting and packing (C05: the dense table that is drawn is not overwritten afterwards) - are discharged in the same run.",
    note=TB + "Trusted: gographviz itself (AddNode makes the node retrievable under its name - an explicit `assumes` clause), graph.NewGraph, fmt.Sprintf / strings.* as pure functions. "
         "No longer trusted: the item text (ItemToStr: `lhs-\\>`, a bullet before the symbol at the dot or at the end, ε for an empty rule), the transition text (showTrans) and the display "
         "name function (utils.RemoveTempName) are proved against recursive specification functions. "
@@ -70,7 +71,7 @@ claimed = {
         "as 'c' and every other name unchanged; grammar rule i is paired with visitor rule i-1 (BuildLALR1: no rule dropped or reordered).",
    note=DRVNOTE + " TraceReduce and TraceTranslate are the generated switches (trusted contracts tied to the grammar by the emits obligations). That the printed run is a legal "
         "run of the automaton follows from C01's step contracts. ",
-   design="§5 C17", technique="contract-based deductive verification with a ghost output log + emits contracts"),
+   design="§S.2 C17", technique="contract-based deductive verification with a ghost output log + emits contracts"),
  "C09": dict(
    text="Deductive proof of the leaf operations the canonical-collection construction is built from: InsertItem keeps the representation invariant of an item "
         "set (map == list, no duplicates) and appends exactly when the item is new; InsertGoTO likewise for transitions; LR0.CheckIsExist returns an index iff a state "
